@@ -107,6 +107,8 @@ def run(ctx):
     totals = {"asked": 0, "ported": 0, "vis": 0, "raw": 0}
     corr_bad = judge_bad = 0
     sexp_hyp_bad = 0
+    anon_hyp_bad = 0
+    hidden_missing_trees = 0
     per_clause = {}
     max_fanout = 0
     for line in out.split("\n"):
@@ -124,6 +126,10 @@ def run(ctx):
             totals[k] += int(kv.get(k, "0") or 0)
         if kv.get("sexpok", "1") != "1":
             sexp_hyp_bad += 1
+        if kv.get("anonleafok", "1") != "1":
+            anon_hyp_bad += 1
+        if kv.get("hiddenmissing", "0") == "1":
+            hidden_missing_trees += 1
         fan = int(kv.get("fanout", "0") or 0)
         max_fanout = max(max_fanout, fan)
         nontrivial = False
@@ -161,7 +167,10 @@ def run(ctx):
                                    "correspondence": "TsVerif.C06.{Cursor,NodePort,NodeNav,Sexp} vs lib/src/{tree_cursor.c,node.c,subtree.c}"},
                                   fingerprint={"lang": lang, "clause": cl, "defect": cl}, found_input=False)
     ctx.oblige("corr:ports=node.c+tree_cursor.c+sexp-writer", corr_bad == 0, "%d trees with disagreements" % corr_bad)
-    ctx.oblige("corr:sexpOK-holds-on-real-trees(hypothesis of sexp_spec)", sexp_hyp_bad == 0, "%d trees" % sexp_hyp_bad)
+    ctx.oblige("corr:sexpOK-holds-on-real-trees(hypothesis of sexp_spec; trees with a hidden MISSING node are outside the theorem and "
+               "reported by the judge)", sexp_hyp_bad == 0, "%d trees" % sexp_hyp_bad)
+    ctx.oblige("corr:anonLeafOK-holds-on-real-trees(hypothesis of named_child_spec)", anon_hyp_bad == 0, "%d trees" % anon_hyp_bad)
+    ctx.coverage["trees_with_hidden_missing_node"] = hidden_missing_trees
     ctx.coverage.update({
         "evaluations": evals, "distinct_nontrivial": len(distinct),
         "rule": "zoo languages x (grammar-directed sentences, byte-mutated sentences, multi-line variants, trees re-parsed after 1-3 edits) + corpus "
